@@ -5,7 +5,7 @@
    parsing / printing on the sampled cases, and ties the Coq-side definitions the theorems speak of to
    the implementation's own image without going through OCaml at all. *)
 From DV Require Import Model.Base Model.Nfa Model.BwBuild Model.CwBuild Model.BwSearch Model.CwSearch
-     Model.Api Model.Ser Model.Spec Model.Utf8.
+     Model.Api Model.Ser Model.Spec Model.Utf8 Model.Cli Model.CliRaw.
 Local Open Scope N_scope.
 
 Definition trip_eqb (a b : nat * nat * Z) : bool :=
@@ -48,5 +48,14 @@ Definition xc_cw (k nfb : N) (vt : vtype) (pvs : list (list N * Z)) (img : list 
                          && res_is (cw_find_iter Z A (he_hay h)) (he_find h)
                          && res_is (cw_find_overlapping_no_suffix_iter Z A (he_hay h)) (he_nos h)
                          && res_is (cw_leftmost_find_iter Z A (he_hay h)) (he_left h)) hs
+  | _ => false
+  end.
+
+(* daacfind: the program of Model/CliRaw.v (= Model/Cli.v on UTF-8 input), evaluated inside Coq, must
+   print the bytes the REAL binary printed and end with its exit status *)
+Definition xc_cli (color lineno nofn : bool) (pf pp : option (list N)) (stdin : list N)
+           (files : list (list N * list N)) (out : list N) (st : N) : bool :=
+  match cli_main_raw {| cf_color := color; cf_lineno := lineno; cf_nofilename := nofn |} pf pp stdin files with
+  | Ok (o, s) => list_eqb o out && (s =? st)
   | _ => false
   end.
